@@ -193,6 +193,12 @@ def gen_assertion(st, sp, plain, want_true):
         fact = fired(block, n)
         return ['event %s is %sfired' % (n, 'not ' if negated else '')], (not fact) if negated else fact, kind
     if kind == 'fired_with':
+        if sent and not want_true and st.flag(1, 3):
+            # the event was fired, but with no parameter of that name: the assertion is false
+            n, _ = st.pick(sent)
+            if st.flag(1, 2):
+                return ['event %s is fired with nosuch=1' % n], False, 'fired_with_unknown_parameter'
+            return ['event %s is fired' % n, '  | parameter | value |', '  | nosuch | 1 |'], False, 'fired_with_unknown_parameter_table'
         if sent and (want_true or st.flag(1, 2)):
             n, data = st.pick(sent)
             uid = data['uid'] if want_true else data['uid'] + 5000
